@@ -12,8 +12,8 @@ EXPLANATION = ('llsym in real-algebraic mode runs the real dense Cholesky (mju_c
                'mju_bandMulMatVec), mju_solve3 and the sparse products/conversions (mju_mulMatVecSparse, mju_mulMatTVecSparse, mju_sparse2dense, mju_dense2sparse, mju_transposeSparse) '
                'with fully symbolic matrix/vector entries; z3 (NRA) proves for ALL values: L L^T = A and rank = n for SPD input, A solve(b) = b, band<->dense are mutually inverse on the band '
                'pattern for every (ntotal, nband, ndense) within the bound, band and sparse products equal the dense definition (also for empty rows and uncompressed layouts).')
-BOUNDS = {'quick': {'cholesky n': '<=3', 'band': 'ntotal<=5, all nband, ndense', 'sparse': 'nr<=2, nc<=3, 5 patterns', 'sparse vectors': 'n<=5, capacity<=3'}, 'thorough': {'band': 'ntotal<=6', 'sparse': 'nr<=3', 'sparse vectors': 'n<=6'}}
-OUTSIDE = 'mju_eig3, mju_boxQP, mju_QCQP* (iterative), sparse Cholesky/LU, AVX code paths, floating-point conditioning.'
+BOUNDS = {'quick': {'cholesky n': '<=3', 'band': 'ntotal<=5, all nband, ndense', 'sparse': 'nr<=2, nc<=3, 5 patterns', 'sparse vectors': 'n<=5, capacity<=3', 'dense LU': 'n<=3, every pivot sequence'}, 'thorough': {'band': 'ntotal<=6', 'sparse': 'nr<=3', 'sparse vectors': 'n<=6'}}
+OUTSIDE = 'mju_eig3, mju_boxQP, mju_QCQP* (iterative), sparse Cholesky / sparse LU, the unrolled mju_factorLU6 / mju_solveLU6, mju_solveLU itself (its input contract P A = L U is what the LU units establish), AVX code paths, floating-point conditioning.'
 ASSUMPTIONS = ['real-number semantics', 'SPD input for the Cholesky round trip (leading minors > 0, mindiag below the pivots)']
 BUDGET = {'quick': 600, 'thorough': 2400}
 _c = {}
@@ -125,6 +125,37 @@ def unit_solve3(tier):
         x = out['x']
         ck.prove('solve3: A x = b when the leading principal minors are non-zero', pc + [m1 != 0, m2 != 0, det != 0], z3.And(*[sum(A[3 * i + j] * x[j] for j in range(3)) == b[i] for i in range(3)]), site='mju_solve3:solution',
                  decode=L.decode(), replay=rp, timeout_s=180)
+    return ck
+
+
+def unit_lu(tier, n):
+    """mju_factorLU: with the recorded row exchanges applied in order to the input, P A = L U (unit lower L below the diagonal, U on and above), which is the contract mju_solveLU consumes"""
+    ck = Checker('lu_n%d' % n, tier, timeout_s=120, semantics='real')
+    L = Leaf(ck, mod(), so(), 'mju_factorLU', [('arr', 'A', n * n), ('i32', 'n', n), ('iarr', 'pivot', n)], restype='i32', loop_bound=n * n + 6)
+    A0 = L.v['A']; nfact = 0
+    for pc, out, ret, rp in L.paths():
+        r = z3.simplify(ret)
+        if not z3.is_bv_value(r): ck.error('return value not concrete on a path'); return ck
+        if r.as_long() == 0: continue                      # reported singular: no factorisation promised
+        import itertools
+        pv = out['pivot']
+        ck.prove('LU: recorded pivot rows lie in [k, n) (n = %d)' % n, pc, z3.And(*[z3.And(pv[k] >= k, pv[k] < n) for k in range(n)]), site='mju_factorLU:pivot-range', decode=L.decode(), replay=rp)
+        LU = out['A']
+        for piv in itertools.product(*[range(k, n) for k in range(n)]):
+            # the exchanges may be a merged (ite) value on a path: decide the identity for each concrete exchange sequence the path admits
+            cond = [pv[k] == piv[k] for k in range(n)]
+            sv = z3.Solver(); sv.set('timeout', 20000); sv.add(*(list(pc) + cond))
+            if str(sv.check()) == 'unsat': continue
+            rows = [[A0[i * n + j] for j in range(n)] for i in range(n)]
+            for k in range(n): rows[k], rows[piv[k]] = rows[piv[k]], rows[k]
+            for i in range(n):
+                for j in range(n):
+                    lu = sum(((LU[i * n + t] if t < i else z3.RealVal(1)) * LU[t * n + j] for t in range(min(i, j) + 1)), z3.RealVal(0))
+                    ck.prove('LU: (P A)[%d][%d] = (L U)[%d][%d] with the recorded exchanges %s (n = %d)' % (i, j, i, j, list(piv), n), list(pc) + cond, rows[i][j] == lu, site='mju_factorLU:PA=LU', decode=L.decode(), replay=rp)
+            nfact += 1
+            last = list(pc) + cond
+    if not nfact: ck.error('no factorising path'); return ck
+    ck.reach('a factorising path', last)
     return ck
 
 
@@ -247,5 +278,6 @@ def units(tier):
     u.append(('sparsevec_n4_cap2', 'unit_sparsevec', {'n': 4, 'cap': 2}))
     u.append(('sparsevec_n5_cap3', 'unit_sparsevec', {'n': 5, 'cap': 3}))
     u.append(('chol_n3', 'unit_chol', {'n': 3}, 2000))
+    u += [('lu_n2', 'unit_lu', {'n': 2}), ('lu_n3', 'unit_lu', {'n': 3})]
     if tier == 'thorough': u.append(('sparsevec_n6_cap3', 'unit_sparsevec', {'n': 6, 'cap': 3}))
     return u
